@@ -101,14 +101,16 @@ Definition hyp_remove_constraint (s : schema) (tn : string) (k : table_constrain
               end)%bool
       end)%bool.
 
-(* RemoveConstraint of the primary key: ALTER TABLE .. DROP CONSTRAINT {t}_pkey.  Outside K12 (auto_increment), K15
+(* RemoveConstraint of the primary key: ALTER TABLE .. DROP CONSTRAINT {t}_pkey.  Outside K12 (auto_increment: the key
+   is not auto-increment, or none of its columns has a type that takes a sequence), K15
    (a foreign key needs the key's index), K6 (renamed table: the name is not {t}_pkey); the key columns are declared
    NOT NULL (A2), because PostgreSQL keeps NOT NULL when the key goes *)
 Definition hyp_remove_pk (s : schema) (tn : string) (k : table_constraint) : bool :=
   (nodup_str (map t_name s)
    && match find (fun x => String.eqb (t_name x) tn) s, k with
       | Some t, CPrimaryKey a cols =>
-          (negb a
+          ((negb a || negb (existsb (fun x => (mem_str (c_name x) cols && supports_auto_increment (c_type x))%bool)
+                                    (t_columns t)))
            && match filter is_pk (t_constraints t) with [k'] => constraint_eqb k' k | _ => false end
            && forallb (fun c => (constraint_eqb c k || negb (mem_str (tn +++ "_pkey") (names_of tn c)))%bool)
                       (t_constraints t)
@@ -222,6 +224,33 @@ Definition hyp_delete_column_enum (s : schema) (tn cn : string) : bool :=
               end
            && nodup_str (map c_name (t_columns t))
            && forallb (constraint_avoids cn) (t_constraints t))%bool
+      end)%bool.
+
+(* DeleteColumn where the column takes single-column objects with it: a unique / index / foreign key over exactly
+   this column is dropped by PostgreSQL together with the column, and apply.rs drops the emptied constraint.  Outside
+   D18 (a composite member: every other constraint avoids the column), a CHECK never mentions it, the primary key
+   avoids it; the derived names of the table are distinct (K10) *)
+Definition constraint_ok (cn : string) (k : table_constraint) : bool :=
+  match k with
+  | CPrimaryKey _ _ | CCheck _ _ => constraint_avoids cn k
+  | CUnique _ cols | CIndex _ cols | CForeignKey _ cols _ _ _ _ =>
+      (constraint_avoids cn k || dec_b (list_eq_dec string_dec) cols [cn])%bool
+  end.
+Definition hyp_delete_column_goes (s : schema) (tn cn : string) : bool :=
+  (nodup_str (map t_name s)
+   && forallb (fun x => (String.eqb (t_name x) tn || negb (existsb (fk_to tn (mem_str cn)) (t_constraints x)))%bool) s
+   && match find (fun x => String.eqb (t_name x) tn) s with
+      | None => false
+      | Some t =>
+          (has_column cn t
+           && match find (fun c => String.eqb (c_name c) cn) (t_columns t) with
+              | Some c => negb (is_enum_type (c_type c))
+              | None => false
+              end
+           && nodup_str (map c_name (t_columns t))
+           && forallb (constraint_ok cn) (t_constraints t)
+           && nodup_str (map fst (flat_map (con_cat tn) (first_pk_only false (t_constraints t))))
+           && nodup_str (map fst (flat_map (idx_cat tn) (first_pk_only false (t_constraints t)))))%bool
       end)%bool.
 
 (* ---------- ModifyColumnNullable / Default / Type: one attribute of one column (non-enum paths) ---------- *)
@@ -459,6 +488,20 @@ Definition hyp_create_table (s : schema) (tn : string) (cols : list column_def) 
       end)%bool.
 
 (* which proved lemma (if any) covers a step *)
+(* ---------- RenameTable, outside K6 (every name derived from the table name stays behind: {old}_pkey, ix_/uq_/fk_{old}__..,
+   {old}_{enum}) and K15 (foreign keys of other tables keep ref_table = old name): what is left is a table that has
+   CHECK constraints only (their names are given, not derived) and no enum column, referenced by nobody ---------- *)
+Definition hyp_rename_table (s : schema) (a b : string) : bool :=
+  (nodup_str (map t_name s)
+   && negb (has_table b s)
+   && negb (rel_exists b (catalog_of s)) && negb (type_exists b (catalog_of s))
+   && forallb (fun x => negb (existsb (fk_to a (fun _ => true)) (t_constraints x))) s
+   && forallb (fun T => forallb (fun y => negb (String.eqb (pc_type y) a)) (pt_cols T)) (c_tables (catalog_of s))
+   && match find (fun x => String.eqb (t_name x) a) s with
+      | Some t => (forallb is_check (t_constraints t) && negb (existsb (fun c => is_enum_type (c_type c)) (t_columns t)))%bool
+      | None => false
+      end)%bool.
+
 Definition sim_hyp (s : schema) (a : action) : bool :=
   match a with
   | RawSql _ => true
@@ -468,13 +511,13 @@ Definition sim_hyp (s : schema) (a : action) : bool :=
   | RemoveConstraint t k => hyp_remove_constraint s t k
   | DeleteTable t => hyp_delete_table s t
   | AddColumn t col fw => (hyp_add_column s t col fw || hyp_add_column_backfill s t col fw || hyp_add_column_enum s t col fw)%bool
-  | DeleteColumn t c => (hyp_delete_column s t c || hyp_delete_column_enum s t c)%bool
+  | DeleteColumn t c => (hyp_delete_column s t c || hyp_delete_column_enum s t c || hyp_delete_column_goes s t c)%bool
   | CreateTable t cols ks => hyp_create_table s t cols ks
   | ModifyColumnNullable t c n _ => hyp_modify_nullable s t c n
   | ModifyColumnDefault t c d => hyp_modify_default s t c d
   | ModifyColumnType t c ty _ => (hyp_modify_type s t c ty || hyp_modify_type_enum s t c ty)%bool
   | RenameColumn t a b => hyp_rename_column s t a b
-  | _ => false
+  | RenameTable a b => hyp_rename_table s a b
   end.
 Fixpoint count_sim (s : schema) (acts : list action) : nat :=
   match acts with
